@@ -182,6 +182,21 @@ def lift_suggestions():
 
 
 WITNESSES = {
+ "K6-exception-whose-own-str-or-getattr-misbehaves-escapes-from-a-root-field": r'''
+from graphql import build_schema, graphql_sync
+schema = build_schema("type Query { x: String inner: Query }")
+class E1(Exception):
+    def __init__(self, code): self.code = code
+    def __str__(self): return self.code            # sloppy: not a string
+class E2(Exception):
+    def __init__(self, payload):
+        super().__init__("remote"); self.payload = payload
+    def __getattr__(self, name): return self.payload[name]   # raises KeyError, not AttributeError
+for exc in (E1(5), E2({"code": 1})):
+    def raiser(*_a, _e=exc): raise _e
+    r = graphql_sync(schema, "{ x }", {"x": raiser})
+    assert r.data == {"x": None} and r.errors and r.errors[0].path == ["x"], r
+''',
  "F24-F25-digit-runs-beyond-the-int-str-limit": r'''
 from graphql import build_schema, graphql_sync
 s = build_schema("input I { abc: String } type Query { f(i: I): String }")
